@@ -693,6 +693,11 @@ def singular_point(u, kind, names, starts, shared):
                 centre = p[n]
                 for level in range(4):
                     cands = [max(lo, min(hi, centre + span * (k_ - 6) / 12.0)) for k_ in range(13)]
+                    if level == 0:
+                        # the special positions of the box: zero, the ends, and the value of a sibling input (lat1 = lat2, ...)
+                        cands += [c_ for c_ in (0.0, lo, hi) if lo <= c_ <= hi]
+                        stem = n.rstrip('0123456789')
+                        cands += [p[m_] for m_ in used if m_ != n and m_.rstrip('0123456789') == stem and lo <= p[m_] <= hi]
                     for c in cands:
                         q = dict(p)
                         q[n] = c
@@ -767,3 +772,131 @@ def conditioning_probe(actual, expected):
                 return ('sqrt(1 - X**2)%s with X**2 within %.3g of 1 at %s: the subtraction cancels all but a few digits of X, where the reference formula computes the '
                         'quantity directly' % (where_, abs(val), pt))
     return None
+
+
+# ------------------------------------------------------------------------------------------------ finite string domains
+STRING_DOMAINS = []      # [(Rat generator, [strings it can be])]: e.g. item(call:geo2grid(...), 0) in {'North', 'South'}
+
+
+def string_results(repo, modname, fname, index, opaque=()):
+    """the string constants element `index` of the function's result can be (leaves of its conditional value); None when not all leaves are strings"""
+    f = repo.func(modname, fname)
+    ev = Evaluator(repo, opaque=set(opaque))
+    try:
+        val = ev.call_function(f, dict((p.name, Rat.sym('sr.' + p.name)) for p in f.params if p.default is None))
+    except Exception:
+        return None
+    out = set()
+
+    def leaves_(v):
+        if isinstance(v, IteV):
+            return leaves_(v.a) and leaves_(v.b)
+        if isinstance(v, Str):
+            out.add(v.s)
+            return True
+        return False
+
+    def pick(v):
+        if isinstance(v, IteV):
+            a, b = pick(v.a), pick(v.b)
+            if a is None or b is None:
+                return None
+            return IteV(v.cond, a, b)
+        if isinstance(v, Tup) and len(v.items) > index:
+            return v.items[index]
+        return None
+    e = pick(val)
+    if e is None or not leaves_(e):
+        return None
+    return sorted(out)
+
+
+def truth_under(v, assign):
+    """truth value of a condition when the generators in `assign` (list of (Rat, string)) take the given strings; None when not decided"""
+    import re
+    if isinstance(v, Bool):
+        return v.b
+    if isinstance(v, IteV):
+        c = truth_under(v.cond, assign)
+        if c is None:
+            return None
+        return truth_under(v.a if c else v.b, assign)
+    if not isinstance(v, Rat):
+        return None
+    fr = v.as_fraction()
+    if fr is not None:
+        return fr != 0
+    a = _single_atom(v)
+    if a is None or a.kind != 'fn':
+        return None
+    if a.name in ('eq', 'ne') and len(a.args) == 2:
+        for x, y in ((a.args[0], a.args[1]), (a.args[1], a.args[0])):
+            if isinstance(x, Rat) and isinstance(y, str):
+                m = re.match(r'^str<(.*)>$', y, re.S)
+                if m:
+                    for g, sval in assign:
+                        if alg.decide_equal(x, g) == 'equal':
+                            return (sval == m.group(1)) == (a.name == 'eq')
+        return None
+    if a.name == 'not' and a.args and isinstance(a.args[0], Rat):
+        t = truth_under(a.args[0], assign)
+        return None if t is None else not t
+    if a.name in ('and', 'or'):
+        ts = [truth_under(x, assign) if isinstance(x, Rat) else None for x in a.args]
+        if a.name == 'and':
+            return False if any(t is False for t in ts) else (None if any(t is None for t in ts) else True)
+        return True if any(t is True for t in ts) else (None if any(t is None for t in ts) else False)
+    if a.name == 'truthy' and a.args and isinstance(a.args[0], Rat):
+        return truth_under(a.args[0], assign)
+    if a.name == 'ite' and len(a.args) == 3 and all(isinstance(x, Rat) for x in a.args):
+        c = truth_under(a.args[0], assign)
+        if c is None:
+            return None
+        return truth_under(a.args[1] if c else a.args[2], assign)
+    return None
+
+
+def decide_conditions_by_strings(a, b, gen, strings):
+    """two truth-valued forms that test the string-valued generator `gen`: compared for every string it can be.
+    -> ('equal', None) | ('different', string) | ('unknown', None)"""
+    for sval in strings:
+        ta, tb = truth_under(a, [(gen, sval)]), truth_under(b, [(gen, sval)])
+        if ta is None or tb is None:
+            return 'unknown', None
+        if ta != tb:
+            return 'different', sval
+    return 'equal', None
+
+
+def split_ite(v, limit=16):
+    """[(conditions [(cond Rat, truth)], form)]: the arms of a conditional value - IteV nodes and ite generators of a Rat (any depth of its own
+    generators' top level), expanded one generator at a time; None when there are more than `limit` arms"""
+    out = [([], v)]
+    for _ in range(32):
+        nxt = []
+        changed = False
+        for conds, f_ in out:
+            if isinstance(f_, IteV):
+                nxt.append((conds + [(f_.cond, True)], f_.a))
+                nxt.append((conds + [(f_.cond, False)], f_.b))
+                changed = True
+                continue
+            hit = None
+            if isinstance(f_, Rat):
+                for k in sorted(f_.atoms(deep=False)):
+                    at = alg.TABLE.atoms[k]
+                    if at.kind == 'fn' and at.name == 'ite' and len(at.args) == 3 and all(isinstance(x, Rat) for x in at.args):
+                        hit = at
+                        break
+            if hit is None:
+                nxt.append((conds, f_))
+                continue
+            changed = True
+            nxt.append((conds + [(hit.args[0], True)], alg.subst(f_, {hit.id: hit.args[1]})))
+            nxt.append((conds + [(hit.args[0], False)], alg.subst(f_, {hit.id: hit.args[2]})))
+        out = nxt
+        if len(out) > limit:
+            return None
+        if not changed:
+            break
+    return out
